@@ -673,7 +673,7 @@ void caseStructured(vrt::Case& c)
   Spec sp;
   sp.A = Dense(n, n);
   Dense& A = sp.A;
-  int f = static_cast<int>((c.index / 12) % 13);
+  int f = static_cast<int>((c.index / 12) % 14);
   LD s = scalePick(c.rng);
   switch (f)
   {
@@ -812,6 +812,21 @@ void caseStructured(vrt::Case& c)
         if (up) A(i, j) = v; else A(j, i) = v;
       }
     if (c.rng.chance(0.3)) { LMat Q = randomOrthogonal(c.rng, n); A = roundL(mul(mul(Q, toL(A)), transposeL(Q))); sp.gen += "-rotated"; }
+    break;
+  }
+  case 12: // symmetric except for one pair of entries (anywhere): must take the non-symmetric route
+  {
+    sp.gen = "one-pair-asymmetric";
+    LMat M(n, n);
+    for (LD& x : M.a) x = s * c.rng.real(-1, 1);
+    A = symmetrised(M);
+    if (n >= 2)
+    {
+      size_t i = c.rng.below(n), j = c.rng.below(n - 1);
+      if (j >= i) ++j;
+      int how = static_cast<int>(c.rng.below(3));
+      A(i, j) = how == 0 ? nextafter(A(i, j), 1e300) : how == 1 ? A(i, j) * 1.001 + 1e-9 * static_cast<double>(s) : -A(i, j) + static_cast<double>(s);
+    }
     break;
   }
   default: // upper Hessenberg with some exactly zero subdiagonal entries (deflation from the start)
@@ -1143,7 +1158,7 @@ int main(int argc, char** argv)
     { "fixed", 12, 12, caseFixed, 300, true },
     { "dense", 7200, 240000, caseDense, 300, false },
     { "symmetric", 7680, 240000, caseSymmetric, 300, false },
-    { "structured", 12480, 374400, caseStructured, 300, false },
+    { "structured", 13440, 376320, caseStructured, 300, false },
     { "spectrum", 4800, 120000, caseSpectrum, 300, false },
     { "functions", 7200, 180000, caseFunctions, 300, false },
     { "duality", 4000, 100000, caseDuality, 300, false },
@@ -1152,7 +1167,7 @@ int main(int argc, char** argv)
   meta.rule = "One case = one real square matrix, n = 1 + index mod 12, flavour = (index div 12) mod #flavours of its group: dense (uniform, gaussian, integers in [-9,9], sparse integers, "
       "positive, rate matrices; scales 1e-6..1e6), symmetric (uniform, integer, prescribed / repeated spectrum, diagonal, zero / identity / scalar, tridiagonal, graded 1e-6..1e6, Gram), "
       "structured (upper / lower triangular incl. repeated diagonal, companion matrices of polynomials with prescribed real roots or complex pairs, rotation blocks plain / permuted / "
-      "orthogonally rotated incl. pure 90-degree rotations, Jordan blocks plain / rotated, nearly defective triangular (diagonal entries 1e-12..1e-6 apart), signed permutation matrices, nilpotent, graded non-symmetric, 0/1 matrices, Hessenberg with zero "
+      "orthogonally rotated incl. pure 90-degree rotations, Jordan blocks plain / rotated, nearly defective triangular (diagonal entries 1e-12..1e-6 apart), signed permutation matrices, nilpotent, symmetric matrices with one entry of one pair changed (by one ulp, 0.1 %, or replaced), graded non-symmetric, 0/1 matrices, Hessenberg with zero "
       "subdiagonal entries), spectrum (S.B.S^-1 with kappa(S)=1..100 and a simple spectrum with mutual distances >= 0.4/n, real or with complex pairs), functions (exp, pow(A,p) for p in "
       "{0,1,2,3,5,-1,-2,0.5,1/3,1.5,2.5,-0.5} on S.diag(lambda).S^-1 with kappa(S)<=10, symmetric, diagonal, identity, zero matrices, |lambda|<=2), duality (DualityDiagram on r x q data, "
       "r,q in 1..8, positive weights), fixed (twelve stored matrices). Every matrix is passed as RowMatrix / ColMatrix / LinearMatrix (random). A class key = (flavour, n, symmetric or not, "
